@@ -42,7 +42,7 @@ func (c16) Cases(tier string) int {
 func (c16) Describe() core.Info {
 	return core.Info{
 		Level: "exploration",
-		Rule: "command histories of 3-25 commands over a pool of 10 small source files (facts only, rules over other files' predicates, declarations with bounds, temporal facts and rules, a file with a syntax error, a file redefining another file's predicate) and 22 clause texts (valid facts and rules, rules over loaded predicates, negation, parse errors, analysis errors, redefinitions, declarations); loads of one and several files, the same file twice, pops on empty. After EVERY command the interpreter under test is compared with a fresh interpreter that replays only the live fragments in order (model: load discards the interactive fragment then pushes iff it succeeds; define replaces the interactive fragment iff it succeeds; pop drops the interactive fragment if there is one, else the top loaded fragment): success/failure of the command itself, error status of ParseQuery for each of 17 predicate names, and the multiset of query results. Non-trivial: a pop after >= 2 pushes or a failed define after a successful one; distinct by command sequence.",
+		Rule: "command histories of 3-25 commands over a pool of 13 small source files (facts only, declarations for predicates that another file defines without one, rules over other files' predicates, declarations with bounds, temporal facts and rules, a file with a syntax error, a file redefining another file's predicate) and 28 clause texts (valid facts and rules, rules over loaded predicates, negation, parse errors, analysis errors, redefinitions, declarations); loads of one and several files, the same file twice, pops on empty. After EVERY command the interpreter under test is compared with a fresh interpreter that replays only the live fragments in order (model: load discards the interactive fragment then pushes iff it succeeds; define replaces the interactive fragment iff it succeeds; pop drops the interactive fragment if there is one, else the top loaded fragment): success/failure of the command itself, error status of ParseQuery for each of 20 predicate names, and the multiset of query results. Non-trivial: a pop after >= 2 pushes or a failed define after a successful one; distinct by command sequence.",
 		Assumptions: []string{"histories are cut at the first command whose *evaluation* fails (state afterwards is unspecified)"},
 	}
 }
@@ -58,17 +58,22 @@ var c16Files = map[string]string{
 	"n.mg":        "n(X) :- a(X), !c(X).\n",
 	"bad.mg":      "a(1.\n",
 	"conflict.mg": "a(9).\n",
+	// declarations for predicates that another file defines without one
+	"adecl.mg":  "Decl a(X) bound [/number].\nr(X) :- a(X).\n",
+	"adecl2.mg": "Decl a(X) bound [/number].\na(8).\n",
+	"cdecl.mg":  "Decl c(X) bound [/number].\nDecl b(X) bound [/number].\n",
 }
 
-var c16FileNames = []string{"a.mg", "b.mg", "c.mg", "d.mg", "e.mg", "t.mg", "u.mg", "n.mg", "bad.mg", "conflict.mg"}
+var c16FileNames = []string{"a.mg", "b.mg", "c.mg", "d.mg", "e.mg", "t.mg", "u.mg", "n.mg", "bad.mg", "conflict.mg", "adecl.mg", "adecl2.mg", "cdecl.mg"}
 
 var c16Clauses = []string{
 	"f(1).", "f(2).", "g(X) :- f(X).", "h(X) :- a(X).", "k(X) :- b(X), !c(X).", "f(", "z(X) :- y(X).", "w(X) :- f(Y).",
 	"a(7).", "Decl m(X) bound [/number].", "m(1).", "m(\"s\").", "g(X) :- c(X).", "h(X) :- cc(X), a(X).", "f(3). f(4).", "q(X) :- d(X).",
 	"q(X) :- u(X)@[S, E].", "c(5).", "g(X) :- g(X).", "k(1).", "h(X) :- f(X), X != 1.", "e(5).",
+	"Decl a(X) bound [/number]. zz(X) :- a(X).", "Decl a(X) bound [/number]. zz(X) :- nope(X).", "Decl c(X) bound [/number]. zc(X) :- c(X).", "Decl f(X) bound [/number].", "Decl b(X) bound [/number].", "zz(X) :- a(X).",
 }
 
-var c16Preds = []string{"a", "b", "c", "cc", "d", "e", "t", "u", "n", "f", "g", "h", "k", "m", "q", "z", "w"}
+var c16Preds = []string{"a", "b", "c", "cc", "d", "e", "t", "u", "n", "f", "g", "h", "k", "m", "q", "z", "w", "r", "zz", "zc"}
 
 func (c16) Gen(r *rand.Rand, tier string, i int) any {
 	n := 3 + r.Intn(23)
